@@ -63,5 +63,6 @@ def get_angle_spec_from_float(angle: float, tol: float = 1e-4) -> List[Tuple[int
         while (n_new % 2) == 0 and d_new > 0:
             n_new, d_new = (int(n_new / 2), d_new - 1)
         nds[i] = (n_new, d_new)
-    nds = [(n, d) for (n, d) in nds if d < 32]
+    # Keep every step whose exponent fits the instruction's immediate field
+    nds = [(n, d) for (n, d) in nds if d <= n_max]
     return nds
